@@ -246,6 +246,11 @@ func (h *histGen) gen(n int) []skOp {
 					ok = false
 				}
 			}
+			// a conversion from a very coarse to a very fine mapping spreads every source bin over millions of target
+			// bins (legitimate, and hours of work for one call): histories keep the ratio of bin widths below 200
+			if math.Log(gOld)/math.Log(gNew) > 200 {
+				ok = false
+			}
 			if !ok || !h.budget.Charge(h.running) {
 				continue
 			}
